@@ -1108,13 +1108,16 @@ class ChannelFileRead(ChannelFile):
 
     def readline(self) -> str:
         if self._buffer is not None:
-            i = self._buffer.find("\n")
+            # items may be bytes as well as str
+            newline = b"\n" if isinstance(self._buffer, bytes) else "\n"
+            i = self._buffer.find(newline)  # type: ignore[arg-type]
             if i != -1:
                 return self.read(i + 1)
             line = self.read(len(self._buffer) + 1)
         else:
             line = self.read(1)
-        while line and line[-1] != "\n":
+        newline = b"\n" if isinstance(line, bytes) else "\n"
+        while line and line[-1:] != newline:
             c = self.read(1)
             if not c:
                 break
